@@ -93,6 +93,9 @@ type pathState struct {
 	oneShotErr      string
 	oneShotQueries  int
 	oneShotTime     time.Duration
+	pathVars        map[string]bool
+	fallbackQueries int
+	fallbackTime    time.Duration
 	knownSeen       map[string]bool
 	cuts            map[string]int
 	facts           map[*term.Term]bool
@@ -133,7 +136,12 @@ func (in *Interp) nondet(name string, w uint8) T {
 		}
 		return in.tb.BV(w, v)
 	}
-	return in.tb.NewVar(name, w)
+	v := in.tb.NewVar(name, w)
+	if p.pathVars == nil {
+		p.pathVars = map[string]bool{}
+	}
+	p.pathVars[name] = true
+	return v
 }
 
 func (in *Interp) freshBool(base string) T {
@@ -145,6 +153,9 @@ func (in *Interp) freshBool(base string) T {
 func (in *Interp) envToModel(env term.Env) Model {
 	m := Model{}
 	for v, x := range env {
+		if in.path != nil && in.path.pathVars != nil && !in.path.pathVars[v.Name] {
+			continue
+		}
 		m[v.Name] = x
 	}
 	return m
@@ -217,8 +228,41 @@ func (in *Interp) query(assume T, wantModel bool) (smt.Result, term.Env, error) 
 		env, err := in.solver.Model(in.tb.Vars)
 		return r, env, err
 	}
+	if r == smt.Unknown && !noFallback {
+		// fall back to one-shot back ends: integer encoding first (linear
+		// arithmetic, decimal kernels), then cvc5's bit-blaster
+		asserts := append([]T(nil), p.pc...)
+		if assume != nil {
+			asserts = append(asserts, assume)
+		}
+		var vars []T
+		if wantModel {
+			vars = in.tb.Vars
+		}
+		for _, o := range []smt.OneShot{smt.CVC5Int, smt.CVC5} {
+			r2, env, _, d := o.Solve(asserts, vars, 120*time.Second)
+			p.fallbackQueries++
+			p.fallbackTime += d
+			if r2 == smt.Unknown {
+				continue
+			}
+			if r2 == smt.Sat && wantModel {
+				if env == nil {
+					continue
+				}
+				for _, v := range in.tb.Vars {
+					if _, ok := env[v]; !ok {
+						env[v] = 0
+					}
+				}
+			}
+			return r2, env, nil
+		}
+	}
 	return r, nil, nil
 }
+
+var noFallback = os.Getenv("SYMGO_NOFALLBACK") != ""
 
 // learn records facts implied syntactically by a path-condition conjunct:
 // the truth value of the conjunct itself (and of its negation / conjuncts),
